@@ -120,6 +120,32 @@ mod proofs {
 		assert!((b.x_min as f64) + 1.0 > xw + 1e-6 || b.x_min == b.max || b.x_min == b.x_max);
 	}
 
+	// the documented rounding rule, exactly: west/north corner = floor(t + 1e-6), east/south corner = floor(t - 1e-6) but never
+	// left of / above the first corner, both clamped to the level (t = position in tile units)
+	fn x_axis_exact(z: u8) {
+		let w: f64 = kani::any(); let e: f64 = kani::any();
+		kani::assume(w >= -180.0 && e <= 180.0 && w <= e);
+		let b = TileBBox::from_geo(z, &GeoBBox(w, 0.0, e, 0.0)).unwrap();
+		let zoom = (1u64 << z) as f64;
+		let xw = zoom * (w / 360.0 + 0.5); let xe = zoom * (e / 360.0 + 0.5);
+		let lo = (xw + 1e-6).floor().min(zoom - 1.0).max(0.0) as u32;
+		let hi = (xe - 1e-6).floor().min(zoom - 1.0).max(0.0) as u32;
+		assert!(b.x_min == lo);                        // the tile containing the (guarded) west edge — also for a zero-width box
+		assert!(b.x_max == if hi >= lo { hi } else { lo });
+	}
+	// harness: kind=complete why="loop-free; all valid west <= east at the fixed level 5 (exact IEEE arithmetic)" tier=quick props=C15,C06,C09 fn=TileBBox::from_geo,TileCoord2::from_geo timeout=2400
+	#[kani::proof]
+	#[kani::stub(f64::tan, nondet1)]
+	#[kani::stub(f64::ln, nondet1)]
+	#[kani::stub(f64::powi, powi_stub)]
+	fn geo_x_axis_exact_rounding_z05() { x_axis_exact(5); }
+	// harness: kind=complete why="loop-free; all valid west <= east, all levels (exact IEEE arithmetic)" tier=thorough props=C15,C06,C09 fn=TileBBox::from_geo,TileCoord2::from_geo timeout=3600
+	#[kani::proof]
+	#[kani::stub(f64::tan, nondet1)]
+	#[kani::stub(f64::ln, nondet1)]
+	#[kani::stub(f64::powi, powi_stub)]
+	fn geo_x_axis_exact_rounding_all() { let z: u8 = kani::any(); kani::assume(z <= 31); x_axis_exact(z); }
+
 	// harness: kind=complete why="loop-free; all tile ranges x0 <= x1 of all levels: box -> geographic bounds -> box is the identity on the x axis" tier=thorough props=C15 fn=TileBBox::as_geo_bbox,TileCoord3::as_geo,TileBBox::from_geo timeout=2400
 	#[kani::proof]
 	#[kani::stub(f64::tan, nondet1)]
